@@ -1,11 +1,64 @@
 package cases
 
-import "covr/internal/e1"
+import (
+	"sort"
+	"strings"
+
+	"covr/internal/e1"
+)
 
 // Accept returns the directed acceptance cases (C11): supported-subset shapes
 // that the golden corpus does not contain (each also runs through the trace
 // comparison, so a "fix" that accepts but mistranslates is caught by C01).
 func Accept() []*e1.Program {
+	return append(acceptFixed(), trailingNativeLoops()...)
+}
+
+// trailingNativeLoops: a yield-free condition-less `for` that is the LAST statement of a block which
+// becomes a thunk body, with its only exit at every position the termination checker has to look at.
+func trailingNativeLoops() []*e1.Program {
+	exits := map[string]string{
+		"if":            "if n > 2 {\n\tbreak\n}",
+		"else":          "if n < 3 {\n\ttr.E(9)\n} else {\n\tbreak\n}",
+		"else-if":       "if n == 1 {\n\ttr.E(8)\n} else if n > 2 {\n\tbreak\n}",
+		"second-else-if": "if n == 1 {\n\ttr.E(8)\n} else if n == 2 {\n\ttr.E(7)\n} else if n > 2 {\n\tbreak\n}",
+		"else-of-else-if": "if n == 1 {\n\ttr.E(8)\n} else if n == 2 {\n\ttr.E(7)\n} else {\n\tbreak\n}",
+		"block":         "{\n\tif n > 2 {\n\t\tbreak\n\t}\n}",
+		"nested-if":     "if n > 1 {\n\tif n > 2 {\n\t\tbreak\n\t}\n\ttr.E(6)\n}",
+		"return":        "if n > 2 {\n\tRETNIL\n}",
+		"switch-then-if": "switch n {\ncase 1:\n\ttr.E(5)\n\tbreak\n}\nif n > 2 {\n\tbreak\n}",
+	}
+	ctxs := map[string]string{
+		"in-if":     "if tr.B(1) {\n\tYIELD(1)\n@\n}\nYIELD(9)\nRETNIL",
+		"in-case":   "switch tr.N(1, 2) {\ncase 0:\n\tYIELD(1)\n@\n}\nYIELD(9)\nRETNIL",
+		"in-loop":   "for i := 0; i < 2; i++ {\n\tYIELD(i)\n@\n}\nYIELD(9)\nRETNIL",
+		"in-else":   "if tr.B(1) {\n\ttr.E(2)\n} else {\n\tYIELD(1)\n@\n}\nYIELD(9)\nRETNIL",
+		"at-top":    "YIELD(1)\n@\nYIELD(9)\nRETNIL",
+	}
+	var names, cnames []string
+	for k := range exits {
+		names = append(names, k)
+	}
+	for k := range ctxs {
+		cnames = append(cnames, k)
+	}
+	sort.Strings(names)
+	sort.Strings(cnames)
+	var out []*e1.Program
+	for _, cn := range cnames {
+		for _, en := range names {
+			loop := "n := 0\nfor {\n\tn++\n\ttr.E(n)\n" + indent(exits[en]) + "}"
+			body := strings.Replace(ctxs[cn], "@", strings.TrimRight(indent(loop), "\n"), 1)
+			if cn == "at-top" {
+				body = strings.Replace(ctxs[cn], "@", loop, 1)
+			}
+			out = append(out, G("acc-trailing-native-loop-exit-in-"+en+"-"+cn, body, "native-loop-after-yield-or-nested"))
+		}
+	}
+	return out
+}
+
+func acceptFixed() []*e1.Program {
 	return []*e1.Program{
 		G("acc-break-in-trailing-native-for", `
 if tr.B(1) {
